@@ -211,7 +211,7 @@ func localSignerRules(c *Check, rule string) {
 	c.floor("NewLocalSigner success returns", 1, len(ok))
 	c.mustPass(pg, rule, "local signer: certificates given", "constructing a local signer", ok, A("-Empty(p0)"))
 	c.mustPass(pg, rule, "local signer: leaf key supported", "constructing a local signer", ok, A("+IsNil("+ks+"#1)"))
-	c.mustPass(pg, rule, "local signer: private key belongs to the leaf certificate", "constructing a local signer", ok, AnyOf(A("+KeyEq(&p1.(*crypto/rsa.PrivateKey).PublicKey, p0[0].PublicKey)"), A("+KeyEq(&p1.(*crypto/ecdsa.PrivateKey).PublicKey, p0[0].PublicKey)")))
+	c.mustPass(pg, rule, "local signer: private key belongs to the leaf certificate", "constructing a local signer", ok, AnyOf(A("+KeyEq(&p1.(*crypto/rsa.PrivateKey).PublicKey, p0[0].PublicKey)"), A("+KeyEq(&p1.(*crypto/ecdsa.PrivateKey).PublicKey, p0[0].PublicKey)"), A("+KeyEq(&p1.PublicKey, p0[0].PublicKey)")))
 	for _, s := range pg.Returns() {
 		if !retNilErr(s, 1) && retKey(s, 0) != "nil" {
 			c.add(rule, "local signer: error means no signer", "a failing NewLocalSigner returns a nil signer", false, c.P.pos(s.Node.Pos))
